@@ -599,6 +599,18 @@ impl<K: KeyT, V: ValT> World<K, V> {
                                 |(k, v): (&K, &V)| kv_json(k, v),
                                 |_it: &griddle::hash_map::Iter<'_, K, V>, _cy: &mut Vec<Value>| {}
                             ),
+                            "zip" => {
+                                // keys() and values() must enumerate in the same order (as iter() does)
+                                for k in map.keys() {
+                                    q!(cyield.push(json!([k.k(), 0, k.id(), 0])));
+                                }
+                                for v in map.values() {
+                                    q!(tail.push(json!([0, v.v(), 0, v.id()])));
+                                }
+                                for (k, v) in map.iter() {
+                                    q!(yielded.push(kv_json(k, v)));
+                                }
+                            }
                             "keys" => walk!(
                                 map.keys(),
                                 |k: &K| json!([k.k(), 0, k.id(), 0]),
